@@ -34,7 +34,7 @@ From FB.Spec Require Import Prog.
 From FB.Model Require Import Types Monad CreatedFiles SimpleOps Builder Persist Build Run Frame.
 From FB.Spec Require Import Ref Oracle Faithful.
 From FB.Model Require Import Core CoreOracle CoreCache.
-From FB.Proofs Require Import ReplayLaws BuildFileLaws FrameLaws CleanLaws CoreLaws2 CoreLaws5 CoreLaws6 CoreLaws7 CoreNextDefs CoreNextThm.
+From FB.Proofs Require Import ReplayLaws BuildFileLaws FrameLaws CleanLaws CoreLaws2 CoreLaws5 CoreLaws6 CoreLaws7 CoreNextDefs CoreNextThm ViewDefs ViewInit ViewXDefs ViewXRun ViewR2 ViewR3 ViewK3 ViewK4 ViewK8 HashMemoInv HashMemoRun SimA0 SimAMain.
 (* T1g: Model/BuildDirs.v and Model/CreatedFiles.v are equal to the translation of build_dirs.py / created_files.py
    (Gen/BookGen.v, regenerated on every run); a change of those sources that the model does not follow breaks this import *)
 From FB.Proofs Require BookGenLaws.
@@ -75,6 +75,30 @@ Theorem C01_every_build_of_a_history_is_transparent : forall cf nm vers0 fs l F0
   (forall g, lookup fs cf <> Some (NFile g)) ->
   chain_ok cf nm F0 0 fs (empty_cache nm vers0) l -> chain_transparent cf nm fs (empty_cache nm vers0) l.
 Proof. exact chain_from_empty. Qed.
+
+(* THE MECHANISM MODEL AGAINST CORE (Proofs/SimA*.v, SimB*.v, ViewK*.v): for a build whose previous cache holds
+   no operation records (every first build) the user code run by the mechanism model - the model that is proved
+   equal to the translation of the Python - and the Core build have the same outcome, the same visible log, and
+   the view of the final world equals Core's tree up to mtime/inode of the files written in this build.  Side
+   conditions on the program: creatable shallow targets, no target below its own function's target (NoNest), no
+   target an ancestor of / below a previous output (TargetsClear, TargetsApart), queries on creatable paths without
+   get_size of directories (QueriesOk), arguments with floats in normal form (WfArgs).  For arbitrary previous
+   caches the same theorem (SimAMain.build_agree_thm) is relative to four statements about cache hits whose
+   substance is proved in SimB*.v (replay_corr: is_op_cached = kreplay; file_hit_sim3, sub_hit_sim3); gluing the two
+   developments is in progress (SimC*.v). *)
+Theorem C01_mechanism_first_build_agrees_with_core : forall w cachefile old nm svers root w1 w2 r l,
+  norec old -> fs_wf (w_fs w) -> old_ok old cachefile -> WfCache old -> old_keys_ok old -> w_faults w = [] ->
+  path_ok (dirname cachefile) = true -> isdir (w_fs w) cachefile = false -> (maxlen (w_fs w) < walk_fuel)%nat ->
+  vdir (Build.start_world w cachefile old nm svers) (dirname cachefile) = true ->
+  AllTargets tgtP root -> NoNest [] root -> QueriesOk root -> WfArgs root ->
+  TargetsClear old root -> TargetsApart old root ->
+  make_dirs (dirname cachefile) (Build.start_world w cachefile old nm svers) = (w1, inl []) ->
+  run root None [] (set_log (LInvoke "<root>"%string None PNone PNone :: w_log w1) w1) = (w2, (r, l)) ->
+  let cr := core_build (w_fs w) cachefile old svers (w_clock w) (w_nextid w) root in
+  cr_outcome cr = r /\
+  (exists L0, vis_log (w_log w2) = rev (cr_log cr) ++ L0) /\
+  trel (c_built (w_new w2)) (view_fs w2) (cr_tree cr).
+Proof. exact build_agree_norec. Qed.
 
 (* the hypotheses are satisfiable: a content oracle read off the tree, and a concrete instance
    (a previous cache, a tree on which the replay succeeds) *)
